@@ -5,7 +5,6 @@ import (
 	"context"
 	"fmt"
 	"io"
-	"sort"
 	"sync"
 	"sync/atomic"
 
@@ -483,34 +482,6 @@ func (b *backend) releaseProblems() []string {
 		}
 	}
 	return out
-}
-
-func (b *backend) snapshot() map[string]string {
-	m := map[string]string{}
-	for _, k := range b.Store.Keys() {
-		m[k] = ""
-	}
-	return m
-}
-
-// contents returns key -> bytes.
-func contents(s *model.Store, ds map[string]digest.Digest) map[string][]byte {
-	out := map[string][]byte{}
-	for k, d := range ds {
-		if b, ok := s.Peek(d); ok {
-			out[k] = b
-		}
-	}
-	return out
-}
-
-func sortedKeys[V any](m map[string]V) []string {
-	var k []string
-	for x := range m {
-		k = append(k, x)
-	}
-	sort.Strings(k)
-	return k
 }
 
 // ---------------------------------------------------------------------------
